@@ -440,7 +440,11 @@ Proof.
     + reflexivity.
 Qed.
 
-(* ====================== the value is NOT copied once: a target that rewrites the source shows through ====================== *)
+(* ====================== the value IS copied once (regression witness of the repaired source aliasing) ====================== *)
+Lemma gen_replacement_source_is_copied :
+  gen_replacement_source_copied = true /\ gen_replacement_source_return_recognised = true.
+Proof. split; reflexivity. Qed.
+
 Definition alias_doc : node :=
   Map [("kind", Scalar TStr SPlain "ConfigMap");
        ("metadata", Map [("name", Scalar TStr SPlain "cm")]);
@@ -451,11 +455,26 @@ Definition alias_repl : replacement :=
                      ["data.a"; "data.b"] (Some (mkFO "/" 1%Z false))])
          None.
 
-(* the source is x; written once into b = q at index 1 it would give q/x; the filter gives q/x/x *)
-Lemma replacement_source_aliased_lemma :
+(* the source is x; the target list [a; b] rewrites the source field first: b still receives x (it used to receive x/x) *)
+Lemma replacement_source_copied_regression :
   splice (mkFO "/" 1%Z false) "q" "x" = "q/x" /\
   replacement_filter (parse_of []) node_value (fun _ => false) simple_lsel 2 [alias_repl] [alias_doc] =
   Ok [Map [("kind", Scalar TStr SPlain "ConfigMap");
            ("metadata", Map [("name", Scalar TStr SPlain "cm")]);
-           ("data", Map [("a", Scalar TStr SPlain "x/x"); ("b", Scalar TStr SPlain "q/x/x")])]].
+           ("data", Map [("a", Scalar TStr SPlain "x/x"); ("b", Scalar TStr SPlain "q/x")])]].
 Proof. split; vm_compute; reflexivity. Qed.
+
+(* the replacement value is never live: getReplacement hands out a private copy *)
+Lemma get_replacement_not_live rs r vs :
+  get_replacement rs r = Ok vs -> vs_live vs = None.
+Proof.
+  unfold get_replacement. intros H.
+  destruct (rp_source_value r) as [v|]; destruct (rp_source r) as [src|]; try discriminate.
+  - inv H. reflexivity.
+  - destruct (select_source (ss_id src) 0 rs None) as [[i n]| | |]; cbn in H; try discriminate.
+    destruct (lookup_addr _ n) as [[a|]| | |]; cbn in H; try discriminate.
+    destruct (get_at a n) as [x|]; try discriminate.
+    destruct (nil_or_empty x); try discriminate.
+    destruct (refined_value (ss_options src) x) as [v| | |]; cbn in H; inv H.
+    reflexivity.
+Qed.
